@@ -827,7 +827,7 @@ fn c07_try_from_builder_outer_ranks() {
     let _ = try_from_check(0xffff_0000_0000_ffff);
 }
 
-// @ob id=O7.1e props=C07,C06 also=C08 tier=quick kind=bounded weight=light bound="the 32 squares of ranks 1,4,5,8 carry any of 13 contents, ranks 2,3,6,7 are empty; side, rights, en-passant file symbolic" fn="TryFrom<&BoardBuilder> for Board,Board::set_ep,BoardBuilder::get_en_passant" desc="same contract as O7.1q with the symbolic squares on the back ranks and the two double-push ranks, so the en-passant clause is exercised non-vacuously in the quick tier: the en-passant square of the built board is the builder's file on the double-push rank and is recorded EXACTLY when a pawn of the side to move stands beside the pushed pawn — the same filter move application uses, hence a built position equals the one reached by play (added after seed C06b was missed: the outer-ranks variant leaves ranks 4/5 empty, so every en-passant request was rejected by the gatekeeper before the filter mattered)"
+// @ob id=O7.1e props=C07,C06,C08 tier=quick kind=bounded weight=light bound="the 32 squares of ranks 1,4,5,8 carry any of 13 contents, ranks 2,3,6,7 are empty; side, rights, en-passant file symbolic" fn="TryFrom<&BoardBuilder> for Board,Board::set_ep,BoardBuilder::get_en_passant" desc="same contract as O7.1q with the symbolic squares on the back ranks and the two double-push ranks, so the en-passant clause is exercised non-vacuously in the quick tier: the en-passant square of the built board is the builder's file on the double-push rank and is recorded EXACTLY when a pawn of the side to move stands beside the pushed pawn — the same filter move application uses, hence a built position equals the one reached by play (added after seed C06b was missed: the outer-ranks variant leaves ranks 4/5 empty, so every en-passant request was rejected by the gatekeeper before the filter mattered)"
 #[kani::proof]
 #[kani::unwind(66)]
 #[kani::stub(crate::board::Board::update_pin_info, upi_spec)]
